@@ -15,9 +15,10 @@
   would matter are explicit: `delete`'s `len - pos - n` (flagged `Err.ub` when `pos + n > len` —
   the case the property excludes) and `strip_blanks`' `end--` (modelled modulo 2^32).
 
-  Behaviour modelled is that of the tree *after* the three `fix:` commits recorded in
+  Behaviour modelled is that of the tree *after* the four `fix:` commits recorded in
   `known_findings.json` (shrink_blanks run of two, hex_to_binary on the empty buffer, search of the
-  empty string at an out-of-range position); DESIGN_NOTES/C19.md has the replays for the old code.
+  empty string at an out-of-range position, a buffer inserted into / appended to itself);
+  `corpus/c19/defects-before-fix.txt` has the replays for the old code.
 -/
 import Wbxml.Prim.Basic
 import Wbxml.Spec.Seq
@@ -68,7 +69,7 @@ end Mem
 def isSpace (c : UInt8) : Bool := c == 0x20 || (0x09 ≤ c && c ≤ 0x0D)
 
 /-- `strlen` view of a C-string argument: the bytes before the first NUL. -/
-def cstrOf (s : Bytes) : Bytes := s.takeWhile (· != 0)
+def bufCstrOf (s : Bytes) : Bytes := s.takeWhile (· != 0)
 
 /-! ### Contents-level codecs (what the bytes become; inverse laws are C11's business) -/
 
@@ -204,6 +205,12 @@ def getCstr (b : Buf) : Except Err Bytes :=
     | .error e => .error e
     | .ok m => m.read 0 b.len
 
+/-- `wbxml_buffer_duplicate`. -/
+def duplicate (b : Buf) : Except Err Buf :=
+  match b.getCstr with
+  | .error e => .error e
+  | .ok s => create (some s) b.len
+
 /-- `grow_buff`. -/
 def growBuff (b : Buf) (size : Nat) : Buf × Bool :=
   if b.isStatic then (b, false)
@@ -265,7 +272,7 @@ def insert (to : Buf) (src : Option Buf) (pos : Nat) : Except Err (Buf × Bool) 
 def insertCstr (to : Buf) (str : Option Bytes) (pos : Nat) : Except Err (Buf × Bool) :=
   match str with
   | none => .ok (to, false)
-  | some s => if to.isStatic then .ok (to, false) else to.insertData pos (cstrOf s)
+  | some s => if to.isStatic then .ok (to, false) else to.insertData pos (bufCstrOf s)
 
 /-- `wbxml_buffer_append_data_real(buffer, data, len)`. -/
 def appendData (b : Buf) (d : Option Bytes) : Except Err (Buf × Bool) :=
@@ -288,7 +295,7 @@ def appendCstr (b : Buf) (s : Option Bytes) : Except Err (Buf × Bool) :=
   if b.isStatic then .ok (b, false)
   else match s with
     | none => .ok (b, true)
-    | some s => b.appendData (some (cstrOf s))
+    | some s => b.appendData (some (bufCstrOf s))
 
 /-- `wbxml_buffer_append_char`. -/
 def appendChar (b : Buf) (ch : UInt8) : Except Err (Buf × Bool) :=
@@ -303,6 +310,25 @@ def deleteMem (m : Mem) (len pos n : Nat) : Except Err Mem :=
   match m.move pos (pos + n) (len - pos - n) with
   | .error e => .error e
   | .ok m => m.store (len - n) 0
+
+/-- `wbxml_buffer_insert(to, to, pos)`: source and destination are the same object, the bytes
+    are taken from a private duplicate (which is destroyed afterwards). -/
+def insertSelf (b : Buf) (pos : Nat) : Except Err (Buf × Bool) :=
+  if b.isStatic then .ok (b, false)
+  else match b.duplicate with
+    | .error e => .error e
+    | .ok d => match d.contents with
+      | .error e => .error e
+      | .ok c => b.insertData pos c
+
+/-- `wbxml_buffer_append(dest, dest)`. -/
+def appendSelf (b : Buf) : Except Err (Buf × Bool) :=
+  if b.isStatic then .ok (b, false)
+  else match b.duplicate with
+    | .error e => .error e
+    | .ok d => match d.getCstr with
+      | .error e => .error e
+      | .ok c => b.appendData (some c)
 
 /-- `wbxml_buffer_delete(buffer, pos, len)`. The `memmove` count is the unsigned `len - pos - n`:
     when `pos + n > len` it wraps to ~4G and the call leaves the allocation — the case the
@@ -472,9 +498,9 @@ def compareCstr (b : Buf) (s : Option Bytes) : Except Err Int :=
   match s with
   | none => .ok 1
   | some s =>
-    compareCore b.len (cstrOf s).length
+    compareCore b.len (bufCstrOf s).length
       (fun n => match b.mem with | .ok m => m.read 0 n | .error e => .error e)
-      (fun n => .ok ((cstrOf s).take n))
+      (fun n => .ok ((bufCstrOf s).take n))
 
 /-- `wbxml_buffer_search_char(to, ch, pos, &result)`: `some idx` = TRUE with `*result = idx`. -/
 def searchChar (b : Buf) (ch : UInt8) (pos : Nat) : Except Err (Option Nat) :=
@@ -524,7 +550,7 @@ def search (to : Buf) (needle : Option Buf) (pos : Nat) : Except Err (Option Nat
 def searchCstr (to : Buf) (needle : Option Bytes) (pos : Nat) : Except Err (Option Nat) :=
   match needle with
   | none => .ok none
-  | some s => to.searchBytes (cstrOf s) pos
+  | some s => to.searchBytes (bufCstrOf s) pos
 
 /-- `wbxml_buffer_contains_only_whitespaces`. -/
 def onlyWs (b : Buf) : Except Err Bool :=
@@ -653,12 +679,6 @@ def encodeBase64 (b : Buf) : Except Err (Buf × Bool) :=
           | .error e => .error e
           | .ok (b, ok) => .ok (b, ok)
 
-/-- `wbxml_buffer_duplicate`. -/
-def duplicate (b : Buf) : Except Err Buf :=
-  match b.getCstr with
-  | .error e => .error e
-  | .ok s => create (some s) b.len
-
 end Buf
 
 /-! ### Operation histories on one buffer -/
@@ -689,6 +709,8 @@ def step (b : Buf) : Op → Except Err (Buf × COut)
   | .insert src pos => match ofArg src with
     | .ok s => liftB (b.insert s pos) | .error e => .error e
   | .insertCstr s pos => liftB (b.insertCstr s pos)
+  | .insertSelf pos => liftB (b.insertSelf pos)
+  | .appendSelf => liftB b.appendSelf
   | .append src => match ofArg src with
     | .ok s => liftB (b.append s) | .error e => .error e
   | .appendData d => liftB (b.appendData d)
